@@ -68,6 +68,14 @@ func (z *zoo) refill(i int) {
 	if r.Chance(1, 6) {
 		z.Y = altEncoding(r, distinguishedValue(r))
 	}
+	// a joint condition on both operands: the exact product of the coefficients next to an intermediate
+	// threshold of the multi-word pipeline (top word equal to a fast-path divisor, word boundaries)
+	if r.Chance(1, 8) {
+		if a, b, ok := r.ProductTargetPair(); ok {
+			z.X = ref.Encode(r.Bool(), a, r.Range(-300, 300))
+			z.Y = ref.Encode(r.Bool(), b, r.Range(-300, 300))
+		}
+	}
 	switch r.Intn(6) {
 	case 0:
 		z.S = buildLiteral(r, i%997 == 0)
